@@ -219,4 +219,54 @@ func ruleA15a(r *Run, p *Prog, rule, rel, tname string) {
 	if n == 0 {
 		r.Fail(rule, tname+"/guarded-accesses", "-", "no guarded field access found in "+tname)
 	}
+	// the mutex is not re-entrant: a method that runs with it held does not call, on the same
+	// receiver, a method that acquires it (a new Write that routes through WriteLevel, called from
+	// the flush that runs under the lock, blocks forever)
+	acquires := map[*ssa.Function]bool{}
+	for changed := true; changed; {
+		changed = false
+		for _, m := range methods {
+			if acquires[m] || len(m.Params) == 0 {
+				continue
+			}
+			recv := m.Params[0]
+			eachInstr(m, func(b *ssa.BasicBlock, i int, in ssa.Instruction) {
+				if nm, base, ok := mutexCall(in, mu); ok && (nm == "Lock" || nm == "RLock") && stripChange(base) == ssa.Value(recv) {
+					if !acquires[m] {
+						acquires[m] = true
+						changed = true
+					}
+				}
+				if cc := callCommon(in); cc != nil && !cc.IsInvoke() {
+					if sc := staticCallee(cc); sc != nil && acquires[sc] && len(cc.Args) > 0 && stripChange(cc.Args[0]) == ssa.Value(recv) && !li.heldAt(m, in) {
+						if !acquires[m] {
+							acquires[m] = true
+							changed = true
+						}
+					}
+				}
+			})
+		}
+	}
+	for _, m := range methods {
+		if len(m.Params) == 0 {
+			continue
+		}
+		recv := m.Params[0]
+		eachInstr(m, func(b *ssa.BasicBlock, i int, in ssa.Instruction) {
+			cc := callCommon(in)
+			if cc == nil || cc.IsInvoke() || len(cc.Args) == 0 {
+				return
+			}
+			sc := staticCallee(cc)
+			if sc == nil || !acquires[sc] || stripChange(cc.Args[0]) != ssa.Value(recv) {
+				return
+			}
+			if _, isGo := in.(*ssa.Go); isGo {
+				return
+			}
+			held := li.heldAt(m, in)
+			r.Ob(rule, FnName(m)+"/no-relock:"+sc.Name(), p.Pos(in.Pos()), !held, true, tern(!held, "calls "+sc.Name()+" (which takes "+mu.Name()+") without holding it", FnName(m)+" calls "+FnName(sc)+" on the same receiver while holding "+mu.Name()+", and that method acquires "+mu.Name()+" again: sync.Mutex is not re-entrant, the call never returns (held lines, the trigger line and every later line are lost)"))
+		})
+	}
 }
